@@ -118,6 +118,9 @@ impl SnapshotAssembler {
 
     pub(crate) async fn flush_to_disk(&mut self) -> Result<()> {
         self.temp_file.flush().await.map_err(StorageError::IoError)?;
+        // Make the assembled bytes durable before the rename publishes them under the final
+        // name; otherwise a power loss can leave a truncated file behind the final name.
+        self.temp_file.sync_all().await.map_err(StorageError::IoError)?;
         Ok(())
     }
 
